@@ -71,6 +71,8 @@ enum S {
     Apply(Box<S>, AK, u32),
     Wrap(WK, Box<S>),
     Mw(Box<S>, u32),
+    /// wrapper around a shim that re-enters the wrapped service itself during `call` / `poll_ready`
+    Reenter(WK, u32, Box<S>),
 }
 
 #[derive(Clone, Debug, PartialEq, Eq)]
@@ -91,6 +93,8 @@ enum F {
     Boxed(Box<F>),
     Rc(Box<F>),
     Arc(Box<F>),
+    /// `Rc` / `Arc` around a shim factory that re-enters the same `Rc` / `Arc` during `new_service`
+    Reenter(PK, u32, Box<F>),
 }
 
 fn oe(b: bool) -> &'static str {
@@ -143,6 +147,7 @@ impl fmt::Display for S {
             S::Apply(s, k, n) => write!(o, "(apply {k} {n} {s})"),
             S::Wrap(w, s) => write!(o, "({w} {s})"),
             S::Mw(s, t) => write!(o, "(mw {s} {t})"),
+            S::Reenter(w, k, s) => write!(o, "(reenter {w} {k} {s})"),
         }
     }
 }
@@ -167,6 +172,7 @@ impl fmt::Display for F {
             F::Boxed(a) => write!(o, "(fboxed {a})"),
             F::Rc(a) => write!(o, "(frc {a})"),
             F::Arc(a) => write!(o, "(farc {a})"),
+            F::Reenter(pk, k, a) => write!(o, "(freenter {pk} {k} {a})"),
         }
     }
 }
@@ -255,19 +261,12 @@ impl<'a> P<'a> {
                 let s = self.svc()?;
                 S::Mw(Box::new(s), self.num()?)
             }
-            w => {
-                let wk = match w {
-                    "boxed" => WK::Boxed,
-                    "rcboxed" => WK::RcBoxed,
-                    "rc" => WK::Rc,
-                    "refcell" => WK::RefCell,
-                    "ref" => WK::Ref,
-                    "box" => WK::Box,
-                    "refmut" => WK::RefMut,
-                    _ => return None,
-                };
-                S::Wrap(wk, Box::new(self.svc()?))
+            "reenter" => {
+                let wk = wkind(self.next()?)?;
+                let k = self.num()?;
+                S::Reenter(wk, k, Box::new(self.svc()?))
             }
+            w => S::Wrap(wkind(w)?, Box::new(self.svc()?)),
         };
         self.expect(")")?;
         Some(r)
@@ -339,11 +338,33 @@ impl<'a> P<'a> {
             "fboxed" => F::Boxed(Box::new(self.fac()?)),
             "frc" => F::Rc(Box::new(self.fac()?)),
             "farc" => F::Arc(Box::new(self.fac()?)),
+            "freenter" => {
+                let pk = match self.next()? {
+                    "rc" => PK::Rc,
+                    "arc" => PK::Arc,
+                    _ => return None,
+                };
+                let k = self.num()?;
+                F::Reenter(pk, k, Box::new(self.fac()?))
+            }
             _ => return None,
         };
         self.expect(")")?;
         Some(r)
     }
+}
+
+fn wkind(w: &str) -> Option<WK> {
+    Some(match w {
+        "boxed" => WK::Boxed,
+        "rcboxed" => WK::RcBoxed,
+        "rc" => WK::Rc,
+        "refcell" => WK::RefCell,
+        "ref" => WK::Ref,
+        "box" => WK::Box,
+        "refmut" => WK::RefMut,
+        _ => return None,
+    })
 }
 
 fn num(s: &str) -> Option<u32> {
@@ -357,7 +378,7 @@ fn svc_leaf_ids(s: &S, out: &mut Vec<u32>) {
     match s {
         S::Leaf { id, .. } => out.push(*id),
         S::Fn { .. } => {}
-        S::Map(s, _) | S::MapErr(s, _) | S::Apply(s, _, _) | S::Wrap(_, s) | S::Mw(s, _) => svc_leaf_ids(s, out),
+        S::Map(s, _) | S::MapErr(s, _) | S::Apply(s, _, _) | S::Wrap(_, s) | S::Mw(s, _) | S::Reenter(_, _, s) => svc_leaf_ids(s, out),
         S::Then(a, b) => {
             svc_leaf_ids(a, out);
             svc_leaf_ids(b, out)
@@ -370,7 +391,7 @@ fn fac_leaf_ids(f: &F, out: &mut Vec<u32>) {
         F::Fn { .. } => {}
         F::Map(a, _) | F::MapErr(a, _) | F::MapInitErr(a, _) | F::Apply(a, _, _) | F::MapConfig(a, _) => fac_leaf_ids(a, out),
         F::Transform { a, .. } | F::ApplyCfgFac { a, .. } => fac_leaf_ids(a, out),
-        F::UnitConfig(a) | F::Boxed(a) | F::Rc(a) | F::Arc(a) => fac_leaf_ids(a, out),
+        F::UnitConfig(a) | F::Boxed(a) | F::Rc(a) | F::Arc(a) | F::Reenter(_, _, a) => fac_leaf_ids(a, out),
         F::Then(a, b) => {
             fac_leaf_ids(a, out);
             fac_leaf_ids(b, out)
@@ -606,6 +627,96 @@ where
     }
 }
 
+type DynS = dyn Service<u32, Response = u32, Error = u32, Future = BFut<Result<u32, u32>>>;
+
+/// User service that re-enters *the wrapper it sits behind* while its own `call` / `poll_ready` is on
+/// the stack (`me` is a handle on the wrapped service): `call(req)` with odd `req` delegates
+/// `req - 1` to the wrapper, which comes back here and goes on to `inner`; `poll_ready` polls the
+/// wrapper once more, which comes back here and polls `inner`.
+struct Shim {
+    inner: BS,
+    k: u32,
+    me: Rc<RefCell<Option<std::rc::Weak<DynS>>>>,
+    in_ready: Cell<bool>,
+}
+impl Shim {
+    fn wrapper(&self) -> Rc<DynS> {
+        self.me.borrow().as_ref().and_then(|w| w.upgrade()).expect("wrapper alive")
+    }
+}
+impl Service<u32> for Shim {
+    type Response = u32;
+    type Error = u32;
+    type Future = BFut<Result<u32, u32>>;
+    fn poll_ready(&self, cx: &mut Context<'_>) -> Poll<Result<(), u32>> {
+        if self.in_ready.get() {
+            self.inner.poll_ready(cx)
+        } else {
+            self.in_ready.set(true);
+            let me = self.wrapper();
+            let r = catch(|| me.poll_ready(cx));
+            self.in_ready.set(false);
+            match r {
+                Ok(r) => r,
+                Err(m) => panic!("{m}"),
+            }
+        }
+    }
+    fn call(&self, req: u32) -> Self::Future {
+        log(Ev::Mapped('x', self.k, req));
+        if req % 2 == 1 {
+            self.wrapper().call(req - 1)
+        } else {
+            self.inner.call(req)
+        }
+    }
+}
+
+type FFut = <BF as ServiceFactory<u32>>::Future;
+/// the same for factories behind `Rc` / `Arc`: `new_service(cfg)` with odd `cfg` asks the same
+/// `Rc` / `Arc` again with `cfg - 1`
+struct ShimF {
+    inner: BF,
+    k: u32,
+    me: Rc<RefCell<Option<Box<dyn Fn(u32) -> FFut>>>>,
+}
+impl ServiceFactory<u32> for ShimF {
+    type Response = u32;
+    type Error = u32;
+    type Config = u32;
+    type Service = BS;
+    type InitError = u32;
+    type Future = FFut;
+    fn new_service(&self, cfg: u32) -> FFut {
+        log(Ev::Mapped('z', self.k, cfg));
+        if cfg % 2 == 1 {
+            (self.me.borrow().as_ref().expect("wrapper alive"))(cfg - 1)
+        } else {
+            self.inner.new_service(cfg)
+        }
+    }
+}
+
+/// something the harness can keep a shared borrow of
+trait HeldCell {
+    fn hold<'a>(&'a self) -> Box<dyn Guard + 'a>;
+}
+trait Guard {}
+impl<T> Guard for std::cell::Ref<'_, T> {}
+impl<T> HeldCell for RefCell<T> {
+    fn hold<'a>(&'a self) -> Box<dyn Guard + 'a> {
+        Box::new(self.borrow())
+    }
+}
+thread_local! {
+    /// the `RefCell` wrappers inside the current service: on every other op the harness keeps a `Ref`
+    /// of each alive across the whole `poll_ready` / `call` + drive
+    static CELLS: RefCell<Vec<Rc<dyn HeldCell>>> = const { RefCell::new(Vec::new()) };
+}
+fn register_cell(c: Rc<dyn HeldCell>) {
+    CELLS.with(|v| v.borrow_mut().push(c));
+}
+
 /// scripted init future (leaf factories, transforms, apply_cfg closures)
 struct InitFut<T> {
     id: u32,
@@ -769,7 +880,11 @@ fn build_svc(s: &S) -> BS {
                 WK::Boxed => boxed::service(inner),
                 WK::RcBoxed => boxed::service(boxed::rc_service(inner)),
                 WK::Rc => boxed::service(Rc::new(inner)),
-                WK::RefCell => boxed::service(RefCell::new(inner)),
+                WK::RefCell => {
+                    let c = Rc::new(RefCell::new(inner));
+                    register_cell(c.clone());
+                    boxed::service(c)
+                }
                 WK::Ref => {
                     let leaked: &'static BS = Box::leak(Box::new(inner));
                     boxed::service(leaked)
@@ -782,6 +897,31 @@ fn build_svc(s: &S) -> BS {
             }
         }
         S::Mw(s, t) => boxed::service(Mw { inner: build_svc(s), t: *t }),
+        S::Reenter(w, k, s) => {
+            let slot = Rc::new(RefCell::new(None));
+            let shim = Shim { inner: build_svc(s), k: *k, me: slot.clone(), in_ready: Cell::new(false) };
+            let h: Rc<DynS> = match w {
+                WK::Boxed => boxed::rc_service(boxed::service(shim)),
+                WK::RcBoxed => boxed::rc_service(boxed::rc_service(shim)),
+                WK::Rc => boxed::rc_service(Rc::new(shim)),
+                WK::RefCell => {
+                    let c = Rc::new(RefCell::new(shim));
+                    register_cell(c.clone());
+                    boxed::rc_service(c)
+                }
+                WK::Ref => {
+                    let leaked: &'static Shim = Box::leak(Box::new(shim));
+                    boxed::rc_service(leaked)
+                }
+                WK::Box => boxed::rc_service(Box::new(shim)),
+                WK::RefMut => {
+                    let leaked: &'static mut Shim = Box::leak(Box::new(shim));
+                    boxed::rc_service(leaked)
+                }
+            };
+            *slot.borrow_mut() = Some(Rc::downgrade(&h));
+            boxed::service(h)
+        }
     }
 }
 
@@ -920,6 +1060,28 @@ fn build_fac(f: &F) -> BF {
         F::Boxed(a) => boxed::factory(build_fac(a)),
         F::Rc(a) => boxed::factory(Rc::new(build_fac(a))),
         F::Arc(a) => boxed::factory(Arc::new(build_fac(a))),
+        F::Reenter(pk, k, a) => {
+            let slot: Rc<RefCell<Option<Box<dyn Fn(u32) -> FFut>>>> = Rc::new(RefCell::new(None));
+            let shim = boxed::factory(ShimF { inner: build_fac(a), k: *k, me: slot.clone() });
+            if *pk == PK::Arc {
+                #[allow(clippy::arc_with_non_send_sync)]
+                let h = Arc::new(shim);
+                let weak = Arc::downgrade(&h);
+                *slot.borrow_mut() = Some(Box::new(move |c| {
+                    let h = weak.upgrade().expect("wrapper alive");
+                    <Arc<BF> as ServiceFactory<u32>>::new_service(&h, c)
+                }));
+                boxed::factory(h)
+            } else {
+                let h = Rc::new(shim);
+                let weak = Rc::downgrade(&h);
+                *slot.borrow_mut() = Some(Box::new(move |c| {
+                    let h = weak.upgrade().expect("wrapper alive");
+                    <Rc<BF> as ServiceFactory<u32>>::new_service(&h, c)
+                }));
+                boxed::factory(h)
+            }
+        }
     }
 }
 
@@ -964,6 +1126,15 @@ fn ref_call(s: &S, req: u32, out: &mut Vec<Ev>) -> Result<u32, u32> {
             }
         }
         S::Wrap(_, s) => ref_call(s, req, out),
+        // transparent wrappers: the shim is entered with `req`, an odd `req` re-enters the wrapper
+        // with `req - 1`, then the inner service answers as if there were no wrapper
+        S::Reenter(_, k, s) => {
+            out.push(Ev::Mapped('x', *k, req));
+            if req % 2 == 1 {
+                out.push(Ev::Mapped('x', *k, req - 1));
+            }
+            ref_call(s, re_req(req), out)
+        }
         S::Mw(s, t) => {
             out.push(Ev::Mapped('w', *t, req));
             ref_call(s, req, out).map(|v| {
@@ -974,11 +1145,15 @@ fn ref_call(s: &S, req: u32, out: &mut Vec<Ev>) -> Result<u32, u32> {
     }
 }
 
+fn re_req(v: u32) -> u32 {
+    v - v % 2
+}
+
 fn leaves<'a>(s: &'a S, out: &mut Vec<&'a S>) {
     match s {
         S::Leaf { .. } => out.push(s),
         S::Fn { .. } => {}
-        S::Map(s, _) | S::MapErr(s, _) | S::Apply(s, _, _) | S::Wrap(_, s) | S::Mw(s, _) => leaves(s, out),
+        S::Map(s, _) | S::MapErr(s, _) | S::Apply(s, _, _) | S::Wrap(_, s) | S::Mw(s, _) | S::Reenter(_, _, s) => leaves(s, out),
         S::Then(a, b) => {
             leaves(a, out);
             leaves(b, out)
@@ -989,7 +1164,7 @@ fn leaves_mut(s: &mut S, f: &mut dyn FnMut(u32, &mut u32)) {
     match s {
         S::Leaf { id, rp, .. } => f(*id, rp),
         S::Fn { .. } => {}
-        S::Map(s, _) | S::MapErr(s, _) | S::Apply(s, _, _) | S::Wrap(_, s) | S::Mw(s, _) => leaves_mut(s, f),
+        S::Map(s, _) | S::MapErr(s, _) | S::Apply(s, _, _) | S::Wrap(_, s) | S::Mw(s, _) | S::Reenter(_, _, s) => leaves_mut(s, f),
         S::Then(a, b) => {
             leaves_mut(a, f);
             leaves_mut(b, f)
@@ -1030,7 +1205,7 @@ fn ref_ready_ev(s: &S, evs: &mut Vec<Ev>) -> Option<Result<(), u32>> {
             }
             r => r,
         },
-        S::Map(s, _) | S::Apply(s, _, _) | S::Wrap(_, s) | S::Mw(s, _) => ref_ready_ev(s, evs),
+        S::Map(s, _) | S::Apply(s, _, _) | S::Wrap(_, s) | S::Mw(s, _) | S::Reenter(_, _, s) => ref_ready_ev(s, evs),
         S::Then(a, b) => {
             let ra = ref_ready_ev(a, evs);
             if let Some(Err(e)) = ra {
@@ -1202,6 +1377,13 @@ fn ref_fac(f: &F, cfg: u32, tr: &mut FacTrace) -> FacRef {
             FacRef { pend: r.pend, res: r.res.map(|s| S::Wrap(WK::Boxed, Box::new(s))) }
         }
         F::Rc(a) | F::Arc(a) => ref_fac(a, cfg, tr),
+        F::Reenter(_, k, a) => {
+            tr.evs.push(Ev::Mapped('z', *k, cfg));
+            if cfg % 2 == 1 {
+                tr.evs.push(Ev::Mapped('z', *k, cfg - 1));
+            }
+            ref_fac(a, re_req(cfg), tr)
+        }
     }
 }
 
@@ -1254,6 +1436,123 @@ fn drive<T>(mut fut: Pin<&mut (dyn Future<Output = T> + '_)>, w: &Cell<usize>, p
 fn fmt_log(l: &[Ev]) -> String {
     let v: Vec<String> = l.iter().map(|e| e.to_string()).collect();
     format!("[{}]", v.join(","))
+}
+
+fn has_wrapper(s: &S) -> bool {
+    match s {
+        S::Wrap(..) | S::Reenter(..) => true,
+        S::Leaf { .. } | S::Fn { .. } => false,
+        S::Map(x, _) | S::MapErr(x, _) | S::Apply(x, _, _) | S::Mw(x, _) => has_wrapper(x),
+        S::Then(a, b) => has_wrapper(a) || has_wrapper(b),
+    }
+}
+/// The tree without its (transparent) wrappers.  A re-entrant shim is user code and stays; it needs
+/// some handle on itself, the plainest one is used (`Rc`).
+fn unwrapped(s: &S) -> S {
+    let b = |x: &S| Box::new(unwrapped(x));
+    match s {
+        S::Wrap(_, x) => unwrapped(x),
+        S::Reenter(_, k, x) => S::Reenter(WK::Rc, *k, b(x)),
+        S::Leaf { .. } | S::Fn { .. } => s.clone(),
+        S::Map(x, f) => S::Map(b(x), *f),
+        S::MapErr(x, f) => S::MapErr(b(x), *f),
+        S::Apply(x, k, n) => S::Apply(b(x), *k, *n),
+        S::Mw(x, t) => S::Mw(b(x), *t),
+        S::Then(x, y) => S::Then(b(x), b(y)),
+    }
+}
+fn fac_unwrapped(f: &F) -> F {
+    let b = |x: &F| Box::new(fac_unwrapped(x));
+    match f {
+        F::Rc(a) | F::Arc(a) => fac_unwrapped(a),
+        F::Reenter(_, k, a) => F::Reenter(PK::Rc, *k, b(a)),
+        F::Leaf { id, ip, iok, use_cfg, s } => F::Leaf { id: *id, ip: *ip, iok: *iok, use_cfg: *use_cfg, s: unwrapped(s) },
+        F::Fn { .. } => f.clone(),
+        F::ApplyCfg { s, f, ip, iok } => F::ApplyCfg { s: unwrapped(s), f: *f, ip: *ip, iok: *iok },
+        F::Map(a, m) => F::Map(b(a), *m),
+        F::MapErr(a, m) => F::MapErr(b(a), *m),
+        F::MapInitErr(a, m) => F::MapInitErr(b(a), *m),
+        F::Apply(a, k, n) => F::Apply(b(a), *k, *n),
+        F::MapConfig(a, m) => F::MapConfig(b(a), *m),
+        F::UnitConfig(a) => F::UnitConfig(b(a)),
+        F::Boxed(a) => F::Boxed(b(a)),
+        F::Transform { t, tp, tok, mie, a, .. } => F::Transform { t: *t, tp: *tp, tok: *tok, pk: PK::Plain, mie: *mie, a: b(a) },
+        F::ApplyCfgFac { a, f, ip, iok } => F::ApplyCfgFac { a: b(a), f: *f, ip: *ip, iok: *iok },
+        F::Then(x, y) => F::Then(b(x), b(y)),
+    }
+}
+
+/// run `f` on the REAL code on the side: event log, leaf registry, cell registry, reactor and
+/// poll-after-completion flag of the main run are left as they were
+fn on_the_side<T>(f: impl FnOnce() -> T) -> Result<T, String> {
+    let saved_log = take_log();
+    let saved_reg = REG.with(|r| r.borrow().clone());
+    let saved_cells = CELLS.with(|c| std::mem::take(&mut *c.borrow_mut()));
+    let saved_repoll = REPOLL.with(|r| r.get());
+    let r = catch(f);
+    take_log();
+    LOG.with(|l| *l.borrow_mut() = saved_log);
+    REG.with(|r| *r.borrow_mut() = saved_reg);
+    CELLS.with(|c| *c.borrow_mut() = saved_cells);
+    REPOLL.with(|r| r.set(saved_repoll));
+    reset_reactor();
+    r
+}
+/// what the real code answers for the same op on the tree WITHOUT the wrappers (fresh build from the
+/// current scripts); `None` = panicked / stalled
+fn side_ready(ast: &S, w: usize) -> Option<Option<Result<(), u32>>> {
+    let u = unwrapped(ast);
+    on_the_side(|| {
+        let svc = build_svc(&u);
+        let waker = make_waker(w + 1000);
+        let mut cx = Context::from_waker(&waker);
+        match svc.poll_ready(&mut cx) {
+            Poll::Pending => None,
+            Poll::Ready(r) => Some(r),
+        }
+    })
+    .ok()
+}
+fn side_call(ast: &S, req: u32, w: usize) -> Option<Result<u32, u32>> {
+    let u = unwrapped(ast);
+    on_the_side(|| {
+        let svc = build_svc(&u);
+        let wc = Cell::new(w + 1000);
+        let polls = RefCell::new(vec![]);
+        let mut fut = svc.call(req);
+        match drive(fut.as_mut(), &wc, &polls) {
+            Drv::Done(r) => Some(r),
+            _ => None,
+        }
+    })
+    .ok()
+    .flatten()
+}
+fn side_fac(f: &F, cfg: u32, w: usize) -> Option<Result<(), u32>> {
+    let u = fac_unwrapped(f);
+    on_the_side(|| {
+        let fac = build_fac(&u);
+        let wc = Cell::new(w + 1000);
+        let polls = RefCell::new(vec![]);
+        let mut fut = fac.new_service(cfg);
+        match drive(fut.as_mut(), &wc, &polls) {
+            Drv::Done(r) => Some(r.map(|_| ())),
+            _ => None,
+        }
+    })
+    .ok()
+    .flatten()
+}
+
+fn fac_has_ptr(f: &F) -> bool {
+    match f {
+        F::Rc(_) | F::Arc(_) | F::Reenter(..) => true,
+        F::Leaf { .. } | F::Fn { .. } | F::ApplyCfg { .. } => false,
+        F::Map(a, _) | F::MapErr(a, _) | F::MapInitErr(a, _) | F::Apply(a, _, _) | F::MapConfig(a, _) => fac_has_ptr(a),
+        F::UnitConfig(a) | F::Boxed(a) => fac_has_ptr(a),
+        F::Transform { a, .. } | F::ApplyCfgFac { a, .. } => fac_has_ptr(a),
+        F::Then(a, b) => fac_has_ptr(a) || fac_has_ptr(b),
+    }
 }
 
 /// C12 checks common to call futures and init futures, on the events of one drive
@@ -1381,11 +1680,18 @@ fn run(a: &Args) {
     let mut cur_ast: Option<S> = None;
     let mut cov = Coverage::default();
     let w = Cell::new(0usize);
+    let mut nop = 0usize;
     for line in in_lines(&a.input) {
         let toks = tokenize(&line);
         let head = toks.first().map(|s| s.as_str()).unwrap_or("");
+        nop = if head == "case" { 0 } else { nop + 1 };
         take_log();
         reset_reactor();
+        // on every other op the harness itself keeps a shared borrow (`Ref`) of every `RefCell`
+        // wrapper in the current service alive across the poll_ready / the call and its drive
+        let cells: Vec<Rc<dyn HeldCell>> = if nop % 2 == 0 && matches!(head, "ready" | "call") { CELLS.with(|c| c.borrow().clone()) } else { vec![] };
+        let _guards: Vec<Box<dyn Guard + '_>> = cells.iter().map(|c| c.hold()).collect();
+        let held = if cells.is_empty() { "" } else { " while the caller holds a Ref of the RefCell wrapper(s)" };
         REPOLL.with(|r| r.set(false));
         let real: String = match head {
             "case" => {
@@ -1394,6 +1700,7 @@ fn run(a: &Args) {
                 w.set(0);
                 WAKES.with(|w| w.borrow_mut().clear());
                 REG.with(|r| r.borrow_mut().clear());
+                CELLS.with(|c| c.borrow_mut().clear());
                 "ok".into()
             }
             "svc" => {
@@ -1406,6 +1713,7 @@ fn run(a: &Args) {
                     } =>
                     {
                         REG.with(|r| r.borrow_mut().clear());
+                        CELLS.with(|c| c.borrow_mut().clear());
                         cur = Some(build_svc(&s));
                         cur_ast = Some(s);
                         "ok".into()
@@ -1443,6 +1751,10 @@ fn run(a: &Args) {
                     };
                     if got != Some(want) {
                         rep.t3("C12", &format!("ready-conj: poll_ready of {ast} answered {res}, the conjunction of the inner services is {want:?}"));
+                        // is it the wrappers?  the same op on the real tree without them
+                        if has_wrapper(ast) && side_ready(ast, id) == Some(want) {
+                            rep.t3("C11", &format!("wrapper-not-transparent: poll_ready of {ast}{held} {}, differs from the unwrapped tree: the real {} answers {want:?}", if r.is_err() { format!("panicked ({})", r.as_ref().err().unwrap()) } else { format!("answered {res}") }, unwrapped(ast)));
+                        }
                     }
                     let got_maps: Vec<Ev> = log.iter().filter(|e| matches!(e, Ev::Mapped(..))).cloned().collect();
                     if got_maps != want_maps {
@@ -1514,6 +1826,9 @@ fn run(a: &Args) {
                     let want = ref_call(ast, req, &mut want_log);
                     if !matches!(&r, Ok(Drv::Done(x)) if *x == want) {
                         rep.t3("C11", &format!("composition-result: call({req}) of {ast} resolved to {res}, the reference composition is {want:?}"));
+                        if has_wrapper(ast) && side_call(ast, req, w.get()) == Some(want) {
+                            rep.t3("C11", &format!("wrapper-not-transparent: call({req}) of {ast}{held} {}, differs from the unwrapped tree: the real {} yields {want:?}", if r.is_err() { format!("panicked ({})", r.as_ref().err().unwrap()) } else { format!("resolved to {res}") }, unwrapped(ast)));
+                        }
                     }
                     let got_log: Vec<Ev> = log
                         .iter()
@@ -1569,6 +1884,7 @@ fn run(a: &Args) {
                     None => "bad-op".into(),
                     Some((f, cfg)) => {
                         REG.with(|r| r.borrow_mut().clear());
+                        CELLS.with(|c| c.borrow_mut().clear());
                         cur = None;
                         cur_ast = None;
                         let polls = RefCell::new(vec![]);
@@ -1599,6 +1915,10 @@ fn run(a: &Args) {
                         };
                         if !agrees {
                             rep.t3("C11", &format!("factory-result: {what} resolved to {res}, the reference is {:?}", want.res.as_ref().map(|s| s.to_string())));
+                            let want_unit = want.res.as_ref().map(|_| ()).map_err(|e| *e);
+                            if fac_has_ptr(&f) && side_fac(&f, cfg, w.get()) == Some(want_unit) {
+                                rep.t3("C11", &format!("wrapper-not-transparent: {what} {}, differs from the unwrapped tree: the real {} yields {want_unit:?}", if r.is_err() { format!("panicked ({})", r.as_ref().err().unwrap()) } else { format!("resolved to {res}") }, fac_unwrapped(&f)));
+                            }
                         }
                         let got_news: Vec<(u32, u32)> = log.iter().filter_map(|e| if let Ev::New(i, c) = e { Some((*i, *c)) } else { None }).collect();
                         // which factories are asked, and with what — not in which order
@@ -1732,6 +2052,11 @@ impl Coverage {
                 let (p, r) = self.call(s, req);
                 (p, r.map(|v| mapfn(*t, v)))
             }
+            S::Reenter(w, _, s) => {
+                let (p, r) = self.call(s, re_req(req));
+                self.hit(format!("reentrant({w}).call({}):pend{}:{}", if req % 2 == 1 { "re-entered" } else { "direct" }, pb(p), oe(r.is_ok())));
+                (p, r)
+            }
         }
     }
     fn ready(&mut self, s: &S) -> Option<Result<(), u32>> {
@@ -1764,6 +2089,11 @@ impl Coverage {
                 r
             }
             S::Mw(x, _) => self.ready(x),
+            S::Reenter(w, _, x) => {
+                let r = self.ready(x);
+                self.hit(format!("reentrant({w}).poll_ready:{}", step_str(r)));
+                r
+            }
         }
     }
     fn fac(&mut self, f: &F, cfg: u32) {
@@ -1808,6 +2138,10 @@ impl Coverage {
             F::UnitConfig(a) => {
                 self.hit(format!("unit_config:{}", tag(&den(a, 0))));
                 self.fac(a, 0)
+            }
+            F::Reenter(pk, _, a) => {
+                self.hit(format!("reentrant {pk}<factory>({}):{}", if cfg % 2 == 1 { "re-entered" } else { "direct" }, tag(&den(a, re_req(cfg)))));
+                self.fac(a, re_req(cfg))
             }
             F::Then(a, b) => {
                 let (ra, rb) = (den(a, cfg), den(b, cfg));
@@ -1881,6 +2215,12 @@ impl Coverage {
             po(n, &mut v);
         }
         for w in WKS {
+            for how in ["re-entered", "direct"] {
+                po(&format!("reentrant({w}).call({how})"), &mut v);
+            }
+            for st in ["pending", "ok", "err"] {
+                v.push(format!("reentrant({w}).poll_ready:{st}"));
+            }
             po(&format!("wrapper({w}).call"), &mut v);
             for st in ["pending", "ok", "err"] {
                 v.push(format!("wrapper({w}).poll_ready:{st}"));
@@ -1906,6 +2246,11 @@ impl Coverage {
         }
         for pk in [PK::Plain, PK::Rc, PK::Arc] {
             v.push(format!("Transform for {pk}"));
+        }
+        for pk in [PK::Rc, PK::Arc] {
+            for how in ["re-entered", "direct"] {
+                po(&format!("reentrant {pk}<factory>({how})"), &mut v);
+            }
         }
         v.push("fn_service.call:ok".into());
         v.push("fn_service.call:err".into());
@@ -1978,7 +2323,13 @@ impl<'a> G<'a> {
             8 | 9 => S::MapErr(Box::new(self.svc(depth - 1)), 20 + self.rng.below(10) as u32),
             10 | 11 => S::Apply(Box::new(self.svc(depth - 1)), *self.rng.pick(&AKS), 40 + self.rng.below(10) as u32),
             12 | 13 => S::Wrap(*self.rng.pick(&WKS), Box::new(self.svc(depth - 1))),
-            14 => S::Mw(Box::new(self.svc(depth - 1)), 30 + self.rng.below(10) as u32),
+            14 => {
+                if self.rng.chance(1, 2) {
+                    S::Mw(Box::new(self.svc(depth - 1)), 30 + self.rng.below(10) as u32)
+                } else {
+                    S::Reenter(*self.rng.pick(&WKS), 45 + self.rng.below(5) as u32, Box::new(self.svc(depth - 1)))
+                }
+            }
             _ => S::Then(Box::new(self.atom()), Box::new(self.svc(depth - 1))),
         }
     }
@@ -2036,7 +2387,13 @@ impl<'a> G<'a> {
             14 => F::UnitConfig(sub(self)),
             15 => F::Boxed(sub(self)),
             16 => F::Rc(sub(self)),
-            17 => F::Arc(sub(self)),
+            17 => {
+                if self.rng.chance(1, 2) {
+                    F::Arc(sub(self))
+                } else {
+                    F::Reenter(if self.rng.chance(1, 2) { PK::Rc } else { PK::Arc }, 45 + self.rng.below(5) as u32, sub(self))
+                }
+            }
             _ => F::Then(Box::new(self.fatom()), sub(self)),
         }
     }
@@ -2059,6 +2416,7 @@ fn svc_shapes(depth: usize) -> Vec<S> {
         }
         for w in WKS {
             out.push(S::Wrap(w, b()));
+            out.push(S::Reenter(w, 45, b()));
         }
         out.push(S::Mw(b(), 31));
     }
@@ -2100,6 +2458,8 @@ fn fac_shapes(depth: usize) -> Vec<F> {
         out.push(F::Boxed(b()));
         out.push(F::Rc(b()));
         out.push(F::Arc(b()));
+        out.push(F::Reenter(PK::Rc, 46, b()));
+        out.push(F::Reenter(PK::Arc, 47, b()));
     }
     for x in &sub {
         for y in &sub {
@@ -2113,7 +2473,7 @@ fn fac_shapes(depth: usize) -> Vec<F> {
 fn svc_slots(s: &mut S, f: &mut dyn FnMut(&mut S)) {
     match s {
         S::Leaf { .. } | S::Fn { .. } => f(s),
-        S::Map(x, _) | S::MapErr(x, _) | S::Apply(x, _, _) | S::Wrap(_, x) | S::Mw(x, _) => svc_slots(x, f),
+        S::Map(x, _) | S::MapErr(x, _) | S::Apply(x, _, _) | S::Wrap(_, x) | S::Mw(x, _) | S::Reenter(_, _, x) => svc_slots(x, f),
         S::Then(a, b) => {
             svc_slots(a, f);
             svc_slots(b, f)
@@ -2184,7 +2544,7 @@ fn rescript_fac(f: &mut F, rng: &mut Rng, maxk: usize, next: &mut u32, nextf: &m
             rescript_fac(a, rng, maxk, next, nextf);
         }
         F::Map(a, _) | F::MapErr(a, _) | F::MapInitErr(a, _) | F::Apply(a, _, _) | F::MapConfig(a, _) => rescript_fac(a, rng, maxk, next, nextf),
-        F::UnitConfig(a) | F::Boxed(a) | F::Rc(a) | F::Arc(a) => rescript_fac(a, rng, maxk, next, nextf),
+        F::UnitConfig(a) | F::Boxed(a) | F::Rc(a) | F::Arc(a) | F::Reenter(_, _, a) => rescript_fac(a, rng, maxk, next, nextf),
         F::Then(a, b) => {
             rescript_fac(a, rng, maxk, next, nextf);
             rescript_fac(b, rng, maxk, next, nextf)
@@ -2253,7 +2613,7 @@ fn fac_params(f: &mut F, kk: usize, pick: &mut dyn FnMut(usize) -> usize, next: 
             fac_params(a, kk, pick, next, nextf);
         }
         F::Map(a, _) | F::MapErr(a, _) | F::MapInitErr(a, _) | F::Apply(a, _, _) | F::MapConfig(a, _) => fac_params(a, kk, pick, next, nextf),
-        F::UnitConfig(a) | F::Boxed(a) | F::Rc(a) | F::Arc(a) => fac_params(a, kk, pick, next, nextf),
+        F::UnitConfig(a) | F::Boxed(a) | F::Rc(a) | F::Arc(a) | F::Reenter(_, _, a) => fac_params(a, kk, pick, next, nextf),
         F::Then(a, b) => {
             fac_params(a, kk, pick, next, nextf);
             fac_params(b, kk, pick, next, nextf)
@@ -2333,6 +2693,11 @@ fn gen_catalogue(w: &mut dyn Write) {
                 }
                 for wk in WKS {
                     svc_case(w, "wrap", &S::Wrap(wk, bx(l.clone())), ops);
+                    // the wrapper re-entered from inside its own call / poll_ready, every other op with
+                    // a Ref of the RefCell held by the caller; behind Rc, under and_then(map(..))
+                    svc_case(w, "reenter", &S::Reenter(wk, 45, bx(l.clone())), "ready\nready\nready\ncall 1\ncall 2\ncall 3\nready\ncall 5\ncall 4");
+                    svc_case(w, "reenter-rc", &S::Then(bx(S::Map(bx(S::Wrap(WK::Rc, bx(S::Reenter(wk, 45, bx(l.clone()))))), 21)), bx(S::Fn { id: 11, cok: true })), "call 3\ncall 1\nready\ncall 2\nready");
+                    svc_case(w, "reenter-nested", &S::Reenter(wk, 45, bx(S::Reenter(WK::RefCell, 46, bx(l.clone())))), "call 1\nready\ncall 3");
                 }
                 svc_case(w, "mw", &S::Mw(bx(l.clone()), 31), ops);
                 svc_case(w, "maperr-maperr", &S::MapErr(bx(S::MapErr(bx(l.clone()), 22)), 23), ops);
@@ -2383,6 +2748,10 @@ fn gen_catalogue(w: &mut dyn Write) {
                 fac_case(w, "fboxed", &F::Boxed(inner()), 6);
                 fac_case(w, "frc", &F::Rc(inner()), 6);
                 fac_case(w, "farc", &F::Arc(inner()), 6);
+                for (pk, cfg) in [(PK::Rc, 6), (PK::Rc, 7), (PK::Arc, 4), (PK::Arc, 5)] {
+                    fac_case(w, "freenter", &F::Reenter(pk, 46, inner()), cfg);
+                }
+                fac_case(w, "freenter-svc", &F::Reenter(PK::Rc, 46, bx(F::Rc(bx(fl(60, k, true, use_cfg, S::Reenter(WK::RefCell, 45, bx(lf(0, k, o, k, true)))))))), 3);
                 fac_case(w, "fthen-ffn", &F::Then(inner(), bx(F::Fn { id: 11, cok: o })), 6);
             }
         }
@@ -2407,6 +2776,10 @@ fn gen(a: &Args) {
         "svc (leaf 0 0 ok 0 ok) x",
         "svc (frob (leaf 0 0 ok 0 ok))",
         "svc (refmut)",
+        "svc (reenter refcell (leaf 0 0 ok 0 ok))",
+        "svc (reenter frob 45 (leaf 0 0 ok 0 ok))",
+        "fac (freenter plain 46 (ffn 11 ok)) 1",
+        "fac (freenter rc (ffn 11 ok)) 1",
         "fac (fleaf 60 0 ok cfg (leaf 0 0 ok 0 ok))",
         "fac (fthen (fleaf 60 0 ok cfg (leaf 0 0 ok 0 ok)) (fleaf 61 0 ok cfg (leaf 0 0 ok 0 ok))) 1",
         "fac (transform 31 0 ok weird (ffn 11 ok)) 1",
